@@ -557,6 +557,12 @@ impl Process {
     /// process.
     #[must_use = "send SIGCHLD if process state has changed"]
     pub fn raise_signal(&mut self, signal: signal::Number) -> SignalResult {
+        // A terminated process (that is yet to be awaited) is not affected by
+        // any signal.
+        if matches!(self.state, ProcessState::Halted(result) if !result.is_stopped()) {
+            return SignalResult::default();
+        }
+
         let process_state_changed =
             signal == signal::SIGCONT && self.set_state(ProcessState::Running);
 
